@@ -511,6 +511,7 @@ type progCase struct {
 
 var linesPlain = []string{"x", "y", "x"}
 var linesCap = []string{"x 5", "y", "x 0", "x 12"}
+var linesFloatThen = []string{"v 1.5", "x", "y", "x"}
 
 type position struct {
 	name  string
@@ -533,6 +534,15 @@ var positions = []position{
 	}},
 	{"decorator", linesPlain, func(e string) string {
 		return "counter c\ndef d {\n  /x/ {\n    next\n  }\n}\n@d {\n  c += " + e + "\n}\n"
+	}},
+	// a metric that is Float-typed by an earlier assignment from a float capture
+	// and then receives the expression (an integer constant expression is NOT
+	// converted: both compiles must treat it alike, whether or not it was folded)
+	{"float-metric-assign", linesFloatThen, func(e string) string {
+		return "gauge fm\n/^v (\\d+\\.\\d+)$/ {\n  fm = $1\n}\n/x/ {\n  fm = " + e + "\n}\n"
+	}},
+	{"float-metric-add-assign", linesFloatThen, func(e string) string {
+		return "gauge fm\n/^v (\\d+\\.\\d+)$/ {\n  fm = $1\n}\n/x/ {\n  fm += " + e + "\n}\n"
 	}},
 	{"del-index", linesPlain, func(e string) string {
 		return "counter c by k\n/x/ {\n  c[" + e + "]++\n}\n/y/ {\n  del c[" + e + "]\n}\n"
